@@ -61,7 +61,12 @@ def power(x1: PolyLike, x2: PolyLike, **kwargs: Any) -> ndpoly:
         probe = x2
     else:
         probe = numpy.empty(0, dtype=numpoly.aspolynomial(x2).dtype)
-    dtype = numpy.power(numpy.empty(0, dtype=x1.dtype), probe).dtype
+    try:
+        dtype = numpy.power(numpy.empty(0, dtype=x1.dtype), probe).dtype
+    except OverflowError:
+        # a Python integer beyond the coefficient type: it counts how often the
+        # base is multiplied, it is not a coefficient
+        dtype = x1.dtype
     exponents = numpoly.aspolynomial(x2).tonumpy()
 
     if (
